@@ -149,7 +149,7 @@ Theorem splitPeriod_structure_gen w pph seg mode cont ast snr st now ases ps :
   let k0 := (st - ast) / (P * 1000) in
   let k1 := (now - ast) / (P * 1000) in
   (P * 1000) mod seg = 0 /\
-  exists ka kb, rangeOf w mode P ases k0 k1 = Ok (ka, kb) /\
+  exists ka kb, rangeOf w mode P ases k0 k1 (k0 - 1) (kmaxOf w P ast now k1) = Ok (ka, kb) /\
   Forall2 (fun k p => pd_nr p = k /\ pd_start p = k * P /\
                       Forall2 (fun a o => splitAS false mode cont snr k P a = Ok o) ases (pd_as p))
           (seqZ ka (Z.to_nat (kb - ka + 1))) ps.
@@ -164,7 +164,8 @@ Proof.
   destruct (negb (P * 1000 mod seg =? 0)) eqn:E; [discriminate|].
   replace (P * 1000 =? 0) with false in H by lia.
   rewrite (quot_pos (st - ast)), (quot_pos (now - ast)) in H by lia. fold k0 k1 in H.
-  destruct (rangeOf w mode P ases k0 k1) as [[ka kb]| |] eqn:ER; cbn [bind fst snd] in H; try discriminate.
+  cbv zeta in H.
+  destruct (rangeOf w mode P ases k0 k1 (k0 - 1) (kmaxOf w P ast now k1)) as [[ka kb]| |] eqn:ER; cbn [bind fst snd] in H; try discriminate.
   destruct (kb - ka + 1 <? 0) eqn:E2; [discriminate|].
   split; [lia|]. exists ka, kb. split; [reflexivity|].
   apply mapM_ok in H.
@@ -173,7 +174,7 @@ Qed.
 
 Theorem splitPeriod_structure pph seg mode cont ast snr st now ases ps :
   1 <= pph <= 3600 -> 0 < seg -> ast <= st -> ast <= now ->
-  splitPeriod false false pph seg mode cont ast snr st now ases = Ok ps ->
+  splitPeriod false None pph seg mode cont ast snr st now ases = Ok ps ->
   let P := periodDurOf pph in
   let k0 := (st - ast) / (P * 1000) in
   let k1 := (now - ast) / (P * 1000) in
@@ -183,22 +184,22 @@ Theorem splitPeriod_structure pph seg mode cont ast snr st now ases ps :
           (seqZ k0 (Z.to_nat (k1 - k0 + 1))) ps.
 Proof.
   intros Hpph Hseg Hst Hnow H P k0 k1.
-  destruct (splitPeriod_structure_gen false pph seg mode cont ast snr st now ases ps Hpph Hseg Hst Hnow H)
+  destruct (splitPeriod_structure_gen None pph seg mode cont ast snr st now ases ps Hpph Hseg Hst Hnow H)
     as (Hm & ka & kb & ER & F).
   fold P k0 k1 in ER, F. cbn in ER. inversion ER; subst. split; assumption.
 Qed.
 
 (** * Rejection and the periods-per-hour range *)
 
-Lemma widenRange_not_err P ases : forall k0 k1 e, widenRange P ases k0 k1 <> Err e.
+Lemma widenRange_not_err P ases kmin kmax : forall k0 k1 e, widenRange P ases kmin kmax k0 k1 <> Err e.
 Proof.
   induction ases as [|a l IH]; intros k0 k1 e; cbn [widenRange]; [discriminate|].
   destruct (a_tl a); [|apply IH]. destruct (firstLast l0) as [[f la]|]; [|apply IH].
   destruct (_ =? 0); [discriminate|apply IH].
 Qed.
 
-Lemma rangeOf_not_err w mode P ases k0 k1 e : rangeOf w mode P ases k0 k1 <> Err e.
-Proof. unfold rangeOf. destruct (_ && _); [apply widenRange_not_err|discriminate]. Qed.
+Lemma rangeOf_not_err w mode P ases k0 k1 kmin kmax e : rangeOf w mode P ases k0 k1 kmin kmax <> Err e.
+Proof. unfold rangeOf. destruct w, mode; try discriminate; apply widenRange_not_err. Qed.
 
 Theorem splitPeriod_reject w pph seg mode cont ast snr st now ases :
   1 <= pph <= 3600 -> 0 < seg ->
@@ -215,7 +216,8 @@ Proof.
   destruct (periodDurOf pph * 1000 mod seg =? 0) eqn:E; cbn [negb].
   - split; [lia|]. intros [e He]. exfalso.
     replace (periodDurOf pph * 1000 =? 0) with false in He by lia.
-    match type of He with context [rangeOf ?a ?b ?c ?d ?e ?f] => destruct (rangeOf a b c d e f) as [[ka kb]|e'|] eqn:ER end;
+    cbv zeta in He.
+    match type of He with context [rangeOf ?a ?b ?c ?d ?e ?f ?g ?h] => destruct (rangeOf a b c d e f g h) as [[ka kb]|e'|] eqn:ER end;
       cbn [bind fst snd] in He; [|exfalso; eapply rangeOf_not_err; exact ER|discriminate].
     match type of He with context [if ?c then _ else _] => destruct c end; [discriminate|].
     revert He. apply mapM_not_err. intros; apply periodOf_not_err.
@@ -377,7 +379,7 @@ Qed.
 
 Theorem splitPeriod_partition pph seg mode cont ast snr st now ases ps j a es :
   1 <= pph <= 3600 -> 0 < seg -> ast <= st <= now ->
-  splitPeriod false false pph seg mode cont ast snr st now ases = Ok ps ->
+  splitPeriod false None pph seg mode cont ast snr st now ases = Ok ps ->
   nth_error ases j = Some a -> templateType mode a <> MNumber -> a_tl a = Some es ->
   let P := periodDurOf pph in
   let k0 := (st - ast) / (P * 1000) in
@@ -430,7 +432,7 @@ Qed.
 
 Theorem splitPeriod_exactly_one pph seg mode cont ast snr st now ases ps j a es :
   1 <= pph <= 3600 -> 0 < seg -> ast <= st <= now ->
-  splitPeriod false false pph seg mode cont ast snr st now ases = Ok ps ->
+  splitPeriod false None pph seg mode cont ast snr st now ases = Ok ps ->
   nth_error ases j = Some a -> templateType mode a <> MNumber -> a_tl a = Some es ->
   let P := periodDurOf pph in
   let k0 := (st - ast) / (P * 1000) in
@@ -469,8 +471,8 @@ Qed.
 (** ids and starts are a function of k only: stable over time *)
 Theorem splitPeriod_ids_stable pph seg mode cont ast snr st1 now1 st2 now2 ases1 ases2 ps1 ps2 p1 p2 :
   1 <= pph <= 3600 -> 0 < seg -> ast <= st1 -> ast <= now1 -> ast <= st2 -> ast <= now2 ->
-  splitPeriod false false pph seg mode cont ast snr st1 now1 ases1 = Ok ps1 ->
-  splitPeriod false false pph seg mode cont ast snr st2 now2 ases2 = Ok ps2 ->
+  splitPeriod false None pph seg mode cont ast snr st1 now1 ases1 = Ok ps1 ->
+  splitPeriod false None pph seg mode cont ast snr st2 now2 ases2 = Ok ps2 ->
   In p1 ps1 -> In p2 ps2 ->
   pd_start p1 = pd_nr p1 * periodDurOf pph /\
   (pd_nr p1 = pd_nr p2 <-> pd_start p1 = pd_start p2).
@@ -493,7 +495,7 @@ Qed.
     start to the period containing now *)
 Theorem splitPeriod_tiles pph seg mode cont ast snr st now ases ps :
   1 <= pph <= 3600 -> 0 < seg -> ast <= st <= now ->
-  splitPeriod false false pph seg mode cont ast snr st now ases = Ok ps ->
+  splitPeriod false None pph seg mode cont ast snr st now ases = Ok ps ->
   let P := periodDurOf pph in
   let k0 := (st - ast) / (P * 1000) in
   let k1 := (now - ast) / (P * 1000) in
@@ -618,8 +620,8 @@ Qed.
 (** * publishTime in $Number$ mode *)
 
 Lemma splitPeriod_number_widen w pph seg cont ast snr st now ases :
-  splitPeriod false w pph seg MNumber cont ast snr st now ases = splitPeriod false false pph seg MNumber cont ast snr st now ases.
-Proof. unfold splitPeriod, rangeOf. now rewrite andb_false_r. Qed.
+  splitPeriod false w pph seg MNumber cont ast snr st now ases = splitPeriod false None pph seg MNumber cont ast snr st now ases.
+Proof. unfold splitPeriod, rangeOf. destruct w; reflexivity. Qed.
 
 Theorem livePeriods_publish w loopMS c now tsbdMS pph seg cont ases ps pt :
   1 <= pph <= 3600 -> 0 < seg -> startS c * 1000 <= now -> 0 <= tsbdMS ->
@@ -634,7 +636,7 @@ Proof.
   assert (Hst : startS c * 1000 <= startTimeMS wt <= now).
   { unfold wt, calcWrapTimes. cbn [startTimeMS]. destruct (now - tsbdMS <? startS c * 1000) eqn:E; lia. }
   rewrite splitPeriod_number_widen in H.
-  destruct (splitPeriod false false pph seg MNumber cont (startS c * 1000) (startNr c) (startTimeMS wt) (wnowMS wt) ases) as [ps'| |] eqn:E; cbn in H; try discriminate.
+  destruct (splitPeriod false None pph seg MNumber cont (startS c * 1000) (startNr c) (startTimeMS wt) (wnowMS wt) ases) as [ps'| |] eqn:E; cbn in H; try discriminate.
   rewrite Hw in E.
   destruct (splitPeriod_tiles pph seg MNumber cont (startS c * 1000) (startNr c) (startTimeMS wt) now ases ps' Hpph Hseg Hst E) as (_ & Hstarts & Hle & _).
   unfold lastPeriodStartTime in H.
@@ -743,7 +745,7 @@ Qed.
 Theorem splitPeriod_total pph seg mode cont ast snr st now ases :
   1 <= pph <= 3600 -> 0 < seg -> (periodDurOf pph * 1000) mod seg = 0 -> ast <= st <= now ->
   Forall (wellShaped mode) ases ->
-  exists ps, splitPeriod false false pph seg mode cont ast snr st now ases = Ok ps.
+  exists ps, splitPeriod false None pph seg mode cont ast snr st now ases = Ok ps.
 Proof.
   intros Hpph Hseg Hacc Hst Hws.
   pose proof (periodDur_pos pph Hpph) as HP.
@@ -756,7 +758,7 @@ Proof.
   replace (periodDurOf pph * 1000 =? 0) with false by lia.
   rewrite (quot_pos (st - ast)), (quot_pos (now - ast)) by lia.
   assert ((st - ast) / (periodDurOf pph * 1000) <= (now - ast) / (periodDurOf pph * 1000)) by (apply Z.div_le_mono; lia).
-  unfold rangeOf. cbn [andb bind fst snd].
+  cbv zeta. unfold rangeOf. cbn [bind fst snd].
   match goal with |- context [if ?c then _ else _] => replace c with false by lia end.
   apply mapM_total. intros k _. unfold periodOf.
   destruct (mapM_total (splitAS false mode cont snr k (periodDurOf pph)) ases) as [out ->]; [|cbn; eauto].
@@ -796,7 +798,7 @@ Qed.
 Definition atoTL : list pS := [ {| p_t := Some 0; p_d := 180000; p_r := 30 |} ].
 Lemma late_segment_witness :
   existsb (fun x => fst x =? 5400000) (expandP atoTL) = true /\
-  splitPeriod false false 60 2000 MTimelineTime false 0 0 0 59000
+  splitPeriod false None 60 2000 MTimelineTime false 0 0 0 59000
     [ {| a_image := false; a_ts := Some 90000; a_dur := None; a_startNr := None; a_tl := Some atoTL |} ] =
   Ok [ {| pd_nr := 0; pd_start := 0;
           pd_as := [ {| o_pto := 0; o_startNr := None; o_tl := Some [ {| p_t := Some 0; p_d := 180000; p_r := 29 |} ]; o_cont := false |} ] |} ].
@@ -805,7 +807,7 @@ Proof. split; vm_compute; reflexivity. Qed.
 (** $Number$ mode with start number 5 and availabilityStartTime 1000 s: period k (counted from
     availabilityStartTime) gets 5 + k*P*ts/d. *)
 Lemma snr_start_example :
-  splitPeriod false false 60 2000 MNumber false 1000000 5 1060500 1120500
+  splitPeriod false None 60 2000 MNumber false 1000000 5 1060500 1120500
     [ {| a_image := false; a_ts := None; a_dur := Some 2; a_startNr := Some 5; a_tl := None |} ] =
   Ok [ {| pd_nr := 1; pd_start := 60; pd_as := [ {| o_pto := 60; o_startNr := Some 35; o_tl := None; o_cont := false |} ] |};
        {| pd_nr := 2; pd_start := 120; pd_as := [ {| o_pto := 120; o_startNr := Some 65; o_tl := None; o_cont := false |} ] |} ].
